@@ -104,7 +104,7 @@ func main() {
 				// generator stops drawing its trigger
 				knownHits[matched]++
 				l.Known = matched
-				if knownHits[matched] >= 4 {
+				if knownHits[matched] >= 4 && os.Getenv("VERIF_AVOID_KNOWN") != "" {
 					for i := range known {
 						if known[i].ID == matched {
 							for key, want := range known[i].Trigger {
